@@ -222,6 +222,40 @@ def worker(cfg, tier):
         v, m, s = smt.satisfiable([done, ret != 0], 10)
         obs.append(Ob("twin.done_with_running_return", v, s, cfg, kind="vacuity"))
 
+    elif which == "squash_fp32":
+        # "squashed actions always land inside the action bounds" in the arithmetic the code runs in: float32, round-to-nearest-even.
+        # tanh is uninterpreted over Float32 with the range axiom -1 <= tanh(x) <= 1 (true of every IEEE implementation).
+        alg = jx.FPAlg()
+        it = jx.Interp(alg=alg)
+        st = rl.SquashState(low=jnp.zeros((1,), jnp.float32), high=jnp.ones((1,), jnp.float32), squash=True)
+        tr = jx.Traced(lambda s_, x: s_.unsquash(x), st, jnp.zeros((1,), jnp.float32))
+        flat = tr.sym_inputs(it, "q")
+        s_in, x_in = tr.in_pytree(flat)
+        out = tr.run(it, flat)
+        lo, hi, x, y = s_in.low.v[0], s_in.high.v[0], x_in.v[0], out.v[0]
+        t = jx.uf("tanh", 1, alg.F32)(x)
+        F = lambda v: z3.FPVal(v, alg.F32)
+        fin = lambda a: z3.Not(z3.Or(z3.fpIsNaN(a), z3.fpIsInf(a)))
+        pre = [fin(lo), fin(hi), z3.fpLT(lo, hi), z3.fpLEQ(F(-1000.0), lo), z3.fpLEQ(hi, F(1000.0)), z3.Not(z3.fpIsNaN(x)),
+               z3.fpLEQ(F(-1.0), t), z3.fpLEQ(t, F(1.0))]
+        v, m, sec = smt.check(pre, z3.And(z3.fpLEQ(lo, y), z3.fpLEQ(y, hi)), tmo)
+        o_ = Ob("squash (float32): unsquash(x) lies inside [low, high] for every float32 x and all finite bounds low < high (|bounds| <= 1000)", v, sec, cfg, key="squash-range-fp32",
+                what="in float32 a squashed action can leave the action bounds: 0.5*(tanh(x)+1)*(high-low)+low rounds above `high` (below `low`) at saturation")
+        if v == "sat":
+            try:
+                lo_c, hi_c = np.float32(float(jx.model_value(m, lo))), np.float32(float(jx.model_value(m, hi)))
+                bad = False
+                for xc in (np.float32(30.0), np.float32(-30.0), np.float32(9.5), np.float32(float(jx.model_value(m, x)))):
+                    yc = np.asarray(rl.SquashState(low=jnp.array([lo_c]), high=jnp.array([hi_c]), squash=True).unsquash(jnp.array([xc])))[0]
+                    bad = bad or not (lo_c <= yc <= hi_c)
+                o_.replayed = bool(bad)
+                o_.model = dict(low=float(lo_c), high=float(hi_c))
+            except Exception as ex:  # noqa
+                o_.detail = f"replay raised {type(ex).__name__}: {ex}"
+        obs.append(o_)
+        v, m, sec = smt.satisfiable(pre + [z3.fpEQ(t, F(1.0))], 30)
+        obs.append(Ob("twin.saturated tanh reachable", v, sec, cfg, kind="vacuity"))
+
     elif which in ("squash", "nosquash"):
         sq = which == "squash"
         st = rl.SquashState(low=jnp.zeros((D,), jnp.float32), high=jnp.ones((D,), jnp.float32), squash=sq)
@@ -278,7 +312,8 @@ def worker(cfg, tier):
                 else:
                     want = z3.If(x < lo, lo, z3.If(x > hi, hi, x))
                 conj.append(got.v[d] == want)
-            v, m, s = smt.check([l < h for l, h in zip(lo_.flat(), hi_.flat())], z3.And(*conj), tmo)
+            tanh_range = [z3.And(jx.uf("tanh")(x_) >= -1, jx.uf("tanh")(x_) <= 1) for x_ in act.flat()] if (wname == "SquashActionWrapper" and sq) else []  # axiom |tanh| <= 1
+            v, m, s = smt.check([l < h for l, h in zip(lo_.flat(), hi_.flat())] + tanh_range, z3.And(*conj), tmo)
             o_ = Ob(f"{wname}: the inner environment is stepped with the {spec}ed action", v, s, cfg, key=f"{wname}-action",
                     what=f"{wname}.step does not hand the {spec}ed action to the wrapped environment")
             if v == "sat":
@@ -601,7 +636,7 @@ def _replay_autoreset_fresh():
 def configs(tier):
     from vlib import cg
 
-    out = [dict(which=w) for w in ("autoreset_fixed", "autoreset_fresh", "log", "squash", "nosquash")]
+    out = [dict(which=w) for w in ("autoreset_fixed", "autoreset_fresh", "log", "squash", "nosquash", "squash_fp32")]
     out += [dict(which="norm_obs", B=2, D=1), dict(which="norm_reward", B=2, D=1)]
     out += [dict(which="norm_obs", B=1, D=1), dict(which="norm_reward", B=1, D=1)]  # a single vectorised environment (batch statistics of one sample)
     out += [dict(which="env_step", inst=cg.instances("quick", small=True)[0]), dict(which="env_step", inst=cg.instances("quick", small=True)[0], hooks=True)]
